@@ -6,6 +6,9 @@ package iox
 import (
 	"errors"
 	"io"
+	"net"
+	"sync"
+	"time"
 )
 
 var ErrInjected = errors.New("iox: injected fault")
@@ -127,3 +130,92 @@ func (s *Sink) Write(p []byte) (int, error) {
 	s.Failed = true
 	return room, ErrInjected
 }
+
+// ---- in-memory duplex connection ---------------------------------------------------------
+
+type pipeHalf struct {
+	mu     sync.Mutex
+	cond   *sync.Cond
+	buf    []byte
+	closed bool
+}
+
+func newHalf() *pipeHalf {
+	h := &pipeHalf{}
+	h.cond = sync.NewCond(&h.mu)
+	return h
+}
+
+func (h *pipeHalf) write(p []byte) (int, error) {
+	h.mu.Lock()
+	defer h.mu.Unlock()
+	if h.closed {
+		return 0, io.ErrClosedPipe
+	}
+	h.buf = append(h.buf, p...)
+	h.cond.Broadcast()
+	return len(p), nil
+}
+
+func (h *pipeHalf) read(p []byte, maxChunk int) (int, error) {
+	h.mu.Lock()
+	defer h.mu.Unlock()
+	for len(h.buf) == 0 {
+		if h.closed {
+			return 0, io.EOF
+		}
+		h.cond.Wait()
+	}
+	n := len(p)
+	if maxChunk > 0 && n > maxChunk {
+		n = maxChunk
+	}
+	n = copy(p[:n], h.buf)
+	h.buf = h.buf[n:]
+	return n, nil
+}
+
+func (h *pipeHalf) close() {
+	h.mu.Lock()
+	h.closed = true
+	h.cond.Broadcast()
+	h.mu.Unlock()
+}
+
+// Duplex is one end of a buffered in-memory connection (writes never block).
+// MaxChunk > 0 limits how many bytes one Read returns (fragmented delivery).
+type Duplex struct {
+	in, out  *pipeHalf
+	MaxChunk int
+}
+
+// NewDuplex returns two connected ends.
+func NewDuplex() (*Duplex, *Duplex) {
+	a, b := newHalf(), newHalf()
+	return &Duplex{in: a, out: b}, &Duplex{in: b, out: a}
+}
+
+func (d *Duplex) Read(p []byte) (int, error)  { return d.in.read(p, d.MaxChunk) }
+func (d *Duplex) Write(p []byte) (int, error) { return d.out.write(p) }
+func (d *Duplex) Close() error {
+	d.in.close()
+	d.out.close()
+	return nil
+}
+func (d *Duplex) LocalAddr() net.Addr                { return addr("duplex-local") }
+func (d *Duplex) RemoteAddr() net.Addr               { return addr("duplex-remote") }
+func (d *Duplex) SetDeadline(t time.Time) error      { return nil }
+func (d *Duplex) SetReadDeadline(t time.Time) error  { return nil }
+func (d *Duplex) SetWriteDeadline(t time.Time) error { return nil }
+
+// Pending returns the number of bytes written by the peer and not yet read.
+func (d *Duplex) Pending() int {
+	d.in.mu.Lock()
+	defer d.in.mu.Unlock()
+	return len(d.in.buf)
+}
+
+type addr string
+
+func (a addr) Network() string { return "mem" }
+func (a addr) String() string  { return string(a) }
